@@ -140,6 +140,7 @@ PIVOT_CONFIGS = [
     (('a',), (), ('v', 'w')),
     (('a', 'a2'), (), ('v',)),
     (('a2',), ('a',), ('w',)),
+    (('a',), ('b', 'b2'), ('v', 'w')),
 ]
 
 
@@ -231,7 +232,7 @@ def eval_pivot_case(rep, case, tier):
                 rep.count(distinct_key=('P', assign, ci, fname, fillname, lay), sample=dict(rp, shape=None if res is None else list(res.shape)))
                 desc = f'pivot(index={idx_f}, columns={col_f}, data={dat_f}, func={fname}, fill_value={fill!r}) on rows {[tuple(clab(src[c][i]) for c in order) for i in range(n)]} (columns {order})'
                 if exc is not None:
-                    rep.fail(f'{PID}:pivot:raises:{type(exc).__name__}', f'{desc} raises {exc!r:.200}', rp)
+                    rep.fail(f'{PID}:pivot:idx{len(idx_f)}-col{len(col_f)}-dat{len(dat_f)}:raises:{type(exc).__name__}', f'{desc} raises {exc!r:.200}', rp)
                     continue
                 got, grl, gcl = frame_cells(res)
                 gcl_t = [c if isinstance(c, tuple) else (c,) for c in gcl]
@@ -668,7 +669,7 @@ def _interleave(cases):
 EVAL = {'P': eval_pivot_case, 'K': eval_stack_case, 'J': eval_join_case, 'I': eval_index_case}
 CASES = {'pivot': pivot_cases, 'stack': stack_cases, 'join': join_cases, 'index': index_cases}
 
-RULE = ('pivot: every assignment of 1..3 rows (every 4th of 4 rows; thorough: all 4-row, a 16th of 5-row) to the 4 (index, column) key pairs x 9 field configurations '
+RULE = ('pivot: every assignment of 1..3 rows (every 4th of 4 rows; thorough: all 4-row, a 16th of 5-row) to the 4 (index, column) key pairs x 10 field configurations '
         '(1-2 index, 0-2 column, 1-2 data fields) x 7 functions (None, np.sum, np.max, a counting function, 3 function maps) x fill value rotating over {nan, 0, "-", None} '
         'x block layouts (all for the default function); stack/unstack: 6 column label sets of depth 1-3 x index depth 1-2 x rows 1-3 x every depth selection x 3 fill values x layouts; '
         'join: every pair of key vectors over {1,2,3} of length 1..3 (and an empty side) x 6 variants (column keys, overlapping index labels, templates + int fill, two keys + str fill, '
